@@ -69,7 +69,7 @@ def run(ctx):
     else:
         sel = ct + ct0 + ctx.rng.sample(clean, 600)
         deltas = cd
-        hs = ch[:1200]
+        hs = ch[:600]
         ks = ck
         ctx.cov["exhaustive"] = True
     ctx.cov["generated"] = {"triples": len(tri), "triples_null": len(tri0), "delta_1key": len(d1), "histories": len(hist), "keyless": len(kl),
